@@ -294,3 +294,54 @@ pub fn dims_mixed(remaining: rust_decimal::Decimal, consumed: rust_decimal::Deci
     let left = remaining - consumed;
     left - lot_cost
 }
+
+pub enum Class {
+    A,
+    B,
+    Other,
+}
+
+/// shadowed literal: the guard arm above catches "Forced Out" before its own arm
+pub fn classifier_shadowed(s: Option<&str>) -> Class {
+    match s.map(str::trim) {
+        Some("In") | Some("Up") | Some("Left") => Class::A,
+        Some(f) if f.starts_with("Forced") => Class::A,
+        Some("Down") | Some("Forced Out") => Class::B,
+        Some(_) | None => Class::Other,
+    }
+}
+
+/// clean twin: every listed literal reaches the arm it is listed under
+pub fn classifier_clean(s: Option<&str>) -> Class {
+    match s.map(str::trim) {
+        Some("In") | Some("Up") | Some("Left") | Some("Forced In") => Class::A,
+        Some("Down") | Some("Forced Out") => Class::B,
+        Some(f) if f.starts_with("Forced") => Class::A,
+        Some(_) | None => Class::Other,
+    }
+}
+
+pub struct PLot {
+    pub size: rust_decimal::Decimal,
+    pub used: rust_decimal::Decimal,
+    pub kept: rust_decimal::Decimal,
+    pub price: rust_decimal::Decimal,
+}
+
+/// partial restatement: the size of the lot is rescaled, the share counters booked against it are not
+pub fn plot_rescale_partial(lots: &mut [PLot], by: rust_decimal::Decimal) {
+    for lot in lots.iter_mut() {
+        lot.size = lot.size * by;
+        lot.price = lot.price / by;
+    }
+}
+
+/// whole restatement: every share-count field moves together
+pub fn plot_rescale_whole(lots: &mut [PLot], by: rust_decimal::Decimal) {
+    for lot in lots.iter_mut() {
+        lot.size = lot.size * by;
+        lot.used *= by;
+        lot.kept = lot.kept * by;
+        lot.price = lot.price / by;
+    }
+}
